@@ -464,16 +464,33 @@ fn cmd_run(args: &[String]) -> i32 {
             }
         }
     }
+    // Two searches for a history that replays: among the interleaved-tasks runs (state that changes between calls), and —
+    // if nothing at all could be reported although runs failed — among all runs (state that is set once per process by
+    // whichever call comes first, e.g. a chunk size cached by the first fill of a digit family).
+    let mut searches: Vec<bool> = Vec::new();
     if tasks_come_and_go && !tasks_failed_alone && !fresh_ok {
+        searches.push(false);
+    }
+    if reported == 0 && !unreproduced.is_empty() {
+        searches.push(true);
+    }
+    for any in searches {
+        if any && reported > 0 {
+            break;
+        }
         let exe = std::env::current_exe().expect("current_exe");
         let t_h = Instant::now();
-        let out = std::process::Command::new(&exe).args(["history-search", "--seed", &seed.to_string(), "--from", &from.to_string(), "--to", &(from + t.runs).to_string()]).output();
+        let mut hs_args = vec!["history-search".to_string(), "--seed".into(), seed.to_string(), "--from".into(), from.to_string(), "--to".into(), (from + t.runs).to_string()];
+        if any {
+            hs_args.push("--any".into());
+        }
+        let out = std::process::Command::new(&exe).args(&hs_args).output();
         let first = out.ok().and_then(|o| String::from_utf8(o.stdout).ok()).and_then(|s| s.lines().find(|l| l.starts_with("FIRST ")).map(|l| l.to_string()));
         if let Some(line) = first {
             let f: Vec<&str> = line.split_whitespace().collect();
             let idx: u64 = f[1].parse().unwrap_or(0);
             let class = f[2].to_string();
-            let all: Vec<RunSpec> = (from..=idx).map(|r| gen::make_run(seed, r, &menu)).filter(|s| !s.tasks.is_empty()).collect();
+            let all: Vec<RunSpec> = (from..=idx).map(|r| gen::make_run(seed, r, &menu)).filter(|s| any || !s.tasks.is_empty()).collect();
             let dir = replay_dir();
             let _ = std::fs::create_dir_all(&dir);
             let path = format!("{}/C20-{}-{}-{}-history-{}.json", dir, BUILD, seed, idx, class);
@@ -510,7 +527,7 @@ fn cmd_run(args: &[String]) -> i32 {
                     let exe = std::env::current_exe().expect("current_exe");
                     let detail = std::process::Command::new(exe).args(["replay", &path]).output().ok().and_then(|o| String::from_utf8(o.stdout).ok()).and_then(|s| s.lines().find(|l| l.starts_with("REPRODUCED")).map(|l| l.to_string())).unwrap_or_default();
                     reported += 1;
-                    violations.push(J::obj().set("class", J::s(&class)).set("type", J::s(&hist.last().unwrap().ty)).set("detail", J::s(&format!("history of {} interleaved-tasks run(s) executed in order in a fresh process (found by a serial pass over runs {}..={}, minimised from {}): {}", hist.len(), from, idx, all.len(), detail))).set("replay", J::s(&path)).set("build", J::s(BUILD)).set("kind", J::s("history")));
+                    violations.push(J::obj().set("class", J::s(&class)).set("type", J::s(&hist.last().unwrap().ty)).set("detail", J::s(&format!("history of {} run(s) executed in order in a fresh process (found by a serial pass over runs {}..={}, minimised from {}): {}", hist.len(), from, idx, all.len(), detail))).set("replay", J::s(&path)).set("build", J::s(BUILD)).set("kind", J::s("history")));
                 }
             }
         }
@@ -781,14 +798,22 @@ fn cmd_history_search(args: &[String]) -> i32 {
     let seed: u64 = arg(args, "--seed").and_then(|s| s.parse().ok()).unwrap_or(20);
     let from: u64 = arg(args, "--from").and_then(|s| s.parse().ok()).unwrap_or(0);
     let to: u64 = arg(args, "--to").and_then(|s| s.parse().ok()).unwrap_or(0);
+    // --any: every run kind and every violation class (state that is set once per process); otherwise the
+    // interleaved-tasks runs and their two classes only
+    let any = args.iter().any(|a| a == "--any");
+    let cap: u64 = arg(args, "--seconds").and_then(|s| s.parse().ok()).unwrap_or(150);
+    let t0 = Instant::now();
     let menu = types::menu();
     for run in from..to {
+        if t0.elapsed().as_secs() > cap {
+            break;
+        }
         let spec = gen::make_run(seed, run, &menu);
-        if spec.tasks.is_empty() {
+        if spec.tasks.is_empty() && !any {
             continue;
         }
         let r = exec::run(&spec, by_name(&menu, &spec.ty).unwrap(), false);
-        if let Some(v) = r.violations.iter().find(|v| v.class == "schedule_dependence" || v.class == "order_dependence") {
+        if let Some(v) = r.violations.iter().find(|v| any || v.class == "schedule_dependence" || v.class == "order_dependence") {
             println!("FIRST {} {}", run, v.class);
             return 1;
         }
